@@ -34,7 +34,7 @@ def guess_output_format(fileorname, fileformat_request):
             else:
                 name = fileorname.name
             ext = os.path.splitext(name)[-1][1:]
-        except (AttributeError, ValueError, IndexError):
+        except (AttributeError, ValueError, IndexError, TypeError):
             pass
 
         if ext == 'tex':
